@@ -2,6 +2,7 @@ import GodiProofs.Container.History
 import GodiProofs.Container.Cascade
 import GodiProofs.Container.TreeBuild
 import GodiProofs.Container.HypSound
+import GodiProofs.Container.Cancel
 /-!
 # C13 — Closed means closed (sequential clauses)
 
@@ -122,6 +123,34 @@ theorem close_reaches_every_descendant (beh : Beh) (descs : List Desc) (order : 
   have t := forest_invariant_over_histories beh descs order ops hyp hok hv
   obtain ⟨_, h2, h3⟩ := close_whole_subtree beh corder hperm st t s hs (closeFuel st) (closeFuel_ge st s)
   exact ⟨h2, fun x hx hb => (h3 x hx hb).1⟩
+
+/-- CANCELLING A CONTEXT CLOSES ITS SCOPES: after any history, `cancel()` of a user context `x` — followed by the
+cancellation watchers it wakes, which is what the model's `cancelCtx` runs — leaves closed every scope (other than
+the root) that was created with `x` or with a context derived from `x`, and every scope created *without* a context
+by such a scope, at any depth (`ScopeUnder`); nothing that was closed is reopened; the forest invariant holds again.
+(When the watcher goroutines actually run is runtime behaviour: the harness waits for them.) -/
+theorem cancelling_a_context_closes_its_scopes (beh : Beh) (descs : List Desc) (order : List Nat) (ops : List Op)
+    (hyp : failedHyps descs = []) (hok : (buildRuntime beh descs order).2 = .ok ())
+    (hv : ValidHistT beh (buildRuntime beh descs order).1 ops) (x : Nat) :
+    let st := run beh (buildRuntime beh descs order).1 ops
+    CtxWF st →
+    Tree (cancelCtx beh st x) ∧
+    (∀ s, (st.scope s).disposed = true → ((cancelCtx beh st x).scope s).disposed = true) ∧
+    ∀ s, s < st.nscopes → s ≠ rootScope → ScopeUnder st x s → ((cancelCtx beh st x).scope s).disposed = true := by
+  intro st wfc
+  exact cancel_closes_scopes_under beh st (forest_invariant_over_histories beh descs order ops hyp hok hv) wfc x
+
+/-! non-vacuity: context 2 is derived from context 1; s1 is created with context 2, s2 by s1 without a context,
+s3 with no context from the provider. Cancelling 1 closes s1 and s2, not s3 -/
+example :
+    let st0 := (buildRuntime {} [] []).1
+    let st0 := { st0 with ctxParent := fun c => if c = 2 then 1 else 0 }
+    let st1 := (providerCreateScope {} st0 2).1
+    let st2 := (scopeCreateScope {} st1 1 0).1
+    let st3 := (providerCreateScope {} st2 0).1
+    let st4 := cancelCtx {} st3 1
+    ((st4.scope 1).disposed, (st4.scope 2).disposed, (st4.scope 3).disposed) = (true, true, false) := by
+  decide
 
 /-! non-vacuity: root ← s1 ← s2 ← s3; closing s1 closes s2 and s3 -/
 example :
